@@ -21,6 +21,15 @@ def main():
     plug = importlib.import_module("props." + a.pid.lower())
     ctx = vlib.Ctx(a.pid, a.tier, seed)
     try:
+        if not a.replay:
+            # promises made to every caller's optimiser by the public declarations (pure/const/malloc attributes)
+            import json
+            import api_attrs
+            anchors = [json.loads(l) for l in open(os.path.join(vlib.VERIF, "properties.jsonl"))]
+            files = next((p["anchors"]["files"] for p in anchors if p["id"] == a.pid), [])
+            for prob in api_attrs.problems(vlib.REPO, files):
+                ctx.broken.append("api-attribute: " + prob)
+                ctx.notes.append("declaration promises more than recorded for the pinned tree: " + prob)
         if a.replay:
             rc = vlib.replay(ctx, plug, a.replay) if not hasattr(plug, "replay") else plug.replay(ctx, a.replay)
         elif hasattr(plug, "check"):
